@@ -15,7 +15,7 @@ func init() {
 		Explanation: "Static rules on the cross-node frame codec and stream (session/crossnode/frame.go, stream.go). " +
 			"R-C10-1: the decoder reads header and payload with io.ReadFull, and the payload allocation is dominated by the comparison `decoded length > MaxFrameSize -> error` on the raw decoded length with the same constant with which both encoders refuse oversize payloads. " +
 			"R-C10-2: WriteFrame, WriteFrameToWriter and ReadFrameFromReader use the same header layout {size 21, id [0,16), type at 16, length [17,21) big-endian}. " +
-			"R-C10-3: FrameStream.Write frames p[written:written+chunk] with chunk <= MaxFrameSize, advances written by the chunk framed, returns the bytes framed on error and the whole length on success. " +
+			"R-C10-3: FrameStream.Write frames consecutive windows p[lo:hi] of the caller's buffer starting at 0 with hi-lo <= MaxFrameSize and the next window starting where the last ended, returns the bytes framed on error and the whole length on success. " +
 			"R-C10-4: FrameStream.Read copies a fresh payload to the caller only under tunnel-id equality and frame type data; the (buffer, offset) pair it keeps denotes exactly the unread remainder and is served before the next frame; EOF/Close frames latch end-of-stream. " +
 			"R-C10-5: after half-close or close Write is refused, and the closed flag is set only after the EOF/Close frame was written. " +
 			"Decides these necessary conditions; does not decide byte equality over TCP or tunnel-id truncation collisions.",
@@ -33,6 +33,8 @@ func init() {
 				Old: "\t\t\tif s.tracker != nil && s.tracker.IsTunnelClosed(otherTunnelIDStr) {\n\t\t\t\tcontinue // 残留帧，丢弃\n\t\t\t}\n\t\t\tcontinue // 其他 tunnel 的帧，丢弃", New: "\t\t\tif s.tracker != nil && s.tracker.IsTunnelClosed(otherTunnelIDStr) {\n\t\t\t\tcontinue // 残留帧，丢弃\n\t\t\t}"},
 			{Name: "read-offset-applied-twice", File: "internal/protocol/session/crossnode/stream.go", Rule: "R-C10-4",
 				Old: "\t\t\ts.readBuf = data\n\t\t\ts.readOff = 0\n\t\t\tn = copy(p, s.readBuf)\n\t\t\ts.readOff = n", New: "\t\t\tn = copy(p, data)\n\t\t\ts.readBuf = data[n:]\n\t\t\ts.readOff = n"},
+			{Name: "eof-frame-not-latched", File: "internal/protocol/session/crossnode/stream.go", Rule: "R-C10-4",
+				Old: "\t\t\t// 半关闭：对端的写入方向结束，但我们仍可以写入\n\t\t\ts.readEOF = true\n", New: "\t\t\t// 半关闭：对端的写入方向结束，但我们仍可以写入\n"},
 			{Name: "closewrite-flag-before-frame", File: "internal/protocol/session/crossnode/stream.go", Rule: "R-C10-5",
 				Old: "\t// 发送 FrameTypeEOF 帧（空数据）- 半关闭\n\tif err := WriteFrame(tcpConn, s.tunnelID, FrameTypeEOF, nil); err != nil {", New: "\t// 发送 FrameTypeEOF 帧（空数据）- 半关闭\n\ts.writeEOF = true\n\tif err := WriteFrame(tcpConn, s.tunnelID, FrameTypeEOF, nil); err != nil {"},
 		},
@@ -111,6 +113,14 @@ func extractFrameLayout(f *ssa.Function) frameLayout {
 	if header == nil {
 		return l
 	}
+	scanLayout(f, header, &l, 2)
+	return l
+}
+
+// scanLayout records the offsets at which f touches the header buffer; the buffer is followed
+// into same-package helpers that receive it as an argument (parseFrameHeader-style splits).
+func scanLayout(f *ssa.Function, header ssa.Value, l *frameLayout, depth int) {
+	isHdr := func(v ssa.Value) bool { return v == header || stripValue(v) == header }
 	Instrs(f, func(in ssa.Instruction) {
 		switch x := in.(type) {
 		case *ssa.Call:
@@ -118,7 +128,7 @@ func extractFrameLayout(f *ssa.Function) frameLayout {
 			if b, ok := x.Call.Value.(*ssa.Builtin); ok && b.Name() == "copy" {
 				// copy(header[a:b], id[:]) or copy(id[:], header[a:b])
 				for _, a := range x.Call.Args {
-					if sl, ok := a.(*ssa.Slice); ok && sl.X == header {
+					if sl, ok := a.(*ssa.Slice); ok && isHdr(sl.X) {
 						if lo, hi, ok := sliceBounds(a); ok {
 							l.idLo, l.idHi, l.found["id"], l.idPos = lo, hi, true, x.Pos()
 						}
@@ -127,7 +137,7 @@ func extractFrameLayout(f *ssa.Function) frameLayout {
 			}
 			if c.Name == "PutUint32" || c.Name == "Uint32" {
 				for _, a := range x.Call.Args {
-					if sl, ok := a.(*ssa.Slice); ok && sl.X == header {
+					if sl, ok := a.(*ssa.Slice); ok && isHdr(sl.X) {
 						if lo, hi, ok := sliceBounds(a); ok {
 							l.lenLo, l.lenHi, l.found["len"], l.lp = lo, hi, true, x.Pos()
 							l.endian = c.Recv
@@ -135,15 +145,88 @@ func extractFrameLayout(f *ssa.Function) frameLayout {
 					}
 				}
 			}
+			if g := x.Common().StaticCallee(); g != nil && depth > 0 && g.Pkg == f.Pkg && len(g.Blocks) > 0 && g != f {
+				for i, a := range x.Common().Args {
+					if isHdr(a) && i < len(g.Params) {
+						scanLayout(g, g.Params[i], l, depth-1)
+					}
+				}
+			}
 		case *ssa.IndexAddr:
-			if x.X == header {
+			if isHdr(x.X) {
 				if k, ok := ConstInt(x.Index); ok {
 					l.typeIdx, l.found["type"], l.typePos = k, true, x.Pos()
 				}
 			}
 		}
 	})
-	return l
+}
+
+// decodedLength finds, in the decoder rd, the SSA value that is the decoded payload length:
+// the Uint32 call itself, or the result of a same-package helper whose corresponding result
+// is such a call on the header it was given.
+func decodedLength(rd *ssa.Function) ssa.Value {
+	for _, c := range Calls(rd, false, "Uint32") {
+		return c.(ssa.Value)
+	}
+	var out ssa.Value
+	Instrs(rd, func(in ssa.Instruction) {
+		ci, ok := in.(*ssa.Call)
+		if !ok || out != nil {
+			return
+		}
+		g := ci.Common().StaticCallee()
+		if g == nil || g.Pkg != rd.Pkg || len(g.Blocks) == 0 {
+			return
+		}
+		nres := g.Signature.Results().Len()
+		for i := 0; i < nres; i++ {
+			all := true
+			rets := Returns(g)
+			for _, ret := range rets {
+				c, _ := CallOfValue(RetVal(ret, i))
+				if c == nil || CalleeOf(c).Name != "Uint32" {
+					// named result: look at the stores into the result variable
+					all = false
+					if u, ok := ret.Results[i].(*ssa.UnOp); ok {
+						if a, ok := u.X.(*ssa.Alloc); ok {
+							sts := storesTo(a)
+							okAll := len(sts) > 0
+							for _, st := range sts {
+								if k, isC := st.Val.(*ssa.Const); isC && k.IsNil() {
+									continue
+								}
+								if z, isZ := ConstInt(st.Val); isZ && z == 0 {
+									continue
+								}
+								c2, _ := CallOfValue(st.Val)
+								if c2 == nil || CalleeOf(c2).Name != "Uint32" {
+									okAll = false
+								}
+							}
+							all = okAll
+						}
+					}
+				}
+				if !all {
+					break
+				}
+			}
+			if all && len(rets) > 0 {
+				if nres == 1 {
+					out = ci
+				} else if ci.Referrers() != nil {
+					for _, ref := range *ci.Referrers() {
+						if ex, ok := ref.(*ssa.Extract); ok && ex.Index == i {
+							out = ex
+						}
+					}
+				}
+				return
+			}
+		}
+	})
+	return out
 }
 
 func runC10(r *Report) {
@@ -154,10 +237,7 @@ func runC10(r *Report) {
 		return
 	}
 	// ---- R-C10-1 decoder safety --------------------------------------------------
-	var length ssa.Value
-	for _, c := range Calls(rd, false, "Uint32") {
-		length = c.(ssa.Value)
-	}
+	length := decodedLength(rd)
 	if length == nil {
 		r.Fail("R-C10-1", rd.Pos(), "decoded length not found", "ReadFrameFromReader", "anchor")
 		return
@@ -253,16 +333,31 @@ func runC10(r *Report) {
 	// ---- R-C10-3 segmentation -----------------------------------------------------------
 	if w := r.need("R-C10-3", cnPkg, "FrameStream.Write"); w != nil {
 		n := 0
+		isLenP := func(v ssa.Value) bool {
+			v = stripValue(v)
+			if lc, ok := v.(*ssa.Call); ok {
+				if b, ok := lc.Call.Value.(*ssa.Builtin); ok && b.Name() == "len" && originSummary(lc.Call.Args[0]) == "param:p" {
+					return true
+				}
+			}
+			return false
+		}
 		for _, c := range Calls(w, false, "WriteFrame") {
 			if !InLoop(c.Block()) {
 				// single-frame path: whole p, under len(p) <= MaxFrameSize
 				okSingle := originSummary(Arg(c, 3)) == "param:p"
 				capped := false
 				for _, ft := range Facts(c.Block()) {
-					if bo, isB := ft.Cond.(*ssa.BinOp); isB && bo.Op == token.GTR && !ft.Pol {
-						if k, isC := ConstInt(bo.Y); isC && k == k1 {
-							capped = true
-						}
+					bo, isB := ft.Cond.(*ssa.BinOp)
+					if !isB || !isLenP(bo.X) {
+						continue
+					}
+					k, isC := ConstInt(bo.Y)
+					if !isC || k != k1 {
+						continue
+					}
+					if (bo.Op == token.GTR && !ft.Pol) || (bo.Op == token.LEQ && ft.Pol) {
+						capped = true
 					}
 				}
 				r.Ob("R-C10-3", CallPos(c), okSingle && capped, "single-frame path writes the whole p and only when len(p) <= MaxFrameSize", "FrameStream.Write", "single-frame")
@@ -271,65 +366,57 @@ func runC10(r *Report) {
 			n++
 			sl, isSl := Arg(c, 3).(*ssa.Slice)
 			good := false
-			why := "chunk is not p[written:written+chunk]"
-			if isSl && originSummary(sl.X) == "param:p" {
-				wphi, isPhi := sl.Low.(*ssa.Phi)
-				hi, isAdd := sl.High.(*ssa.BinOp)
-				if isPhi && isAdd && hi.Op == token.ADD && hi.X == ssa.Value(wphi) {
-					chunk := hi.Y
-					// chunk <= MaxFrameSize: phi of const cap and len(p)-written under the overflow test
-					capOK := false
-					if cp, ok := chunk.(*ssa.Phi); ok {
-						capOK = true
-						for _, e := range cp.Edges {
-							if k, isC := ConstInt(e); isC {
-								if k > k1 {
-									capOK = false
-								}
+			why := "chunk is not a window p[lo:hi] of the caller's buffer with a loop-carried lo"
+			if isSl && originSummary(sl.X) == "param:p" && sl.High != nil {
+				if lo, isPhi := sl.Low.(*ssa.Phi); isPhi {
+					hi := sl.High
+					capOK := windowBounded(lo, hi, k1)
+					// lo starts at 0 and advances to exactly hi (the next window starts where this one ended)
+					adv, zero := false, false
+					for _, e := range lo.Edges {
+						if z, isC := ConstInt(e); isC {
+							zero = z == 0
+							continue
+						}
+						if e == hi || sameExpr(e, hi) {
+							adv = true
+							continue
+						}
+						if a, ok := e.(*ssa.BinOp); ok && a.Op == token.ADD && a.X == ssa.Value(lo) {
+							if h, ok := hi.(*ssa.BinOp); ok && h.Op == token.ADD && h.X == ssa.Value(lo) && (a.Y == h.Y || sameExpr(a.Y, h.Y)) {
+								adv = true
 								continue
 							}
-							if sub, ok := e.(*ssa.BinOp); !ok || sub.Op != token.SUB || sub.Y != ssa.Value(wphi) {
-								capOK = false
-							}
 						}
-					} else if k, isC := ConstInt(chunk); isC && k <= k1 {
-						capOK = true
+						adv = false
+						break
 					}
-					// written advances by exactly chunk
-					adv := false
-					for _, e := range wphi.Edges {
-						if a, ok := e.(*ssa.BinOp); ok && a.Op == token.ADD && a.X == ssa.Value(wphi) && (a.Y == chunk || sameExpr(a.Y, chunk)) {
-							adv = true
-						}
-					}
-					good = capOK && adv
-					if !capOK {
-						why = "chunk size is not bounded by MaxFrameSize"
-					} else if !adv {
-						why = "`written` does not advance by the chunk that was framed"
+					good = capOK && adv && zero
+					switch {
+					case !capOK:
+						why = "window size hi-lo is not bounded by MaxFrameSize"
+					case !zero:
+						why = "the first window does not start at 0"
+					case !adv:
+						why = "the next window does not start where the framed one ended"
 					}
 					// returns
 					for _, ret := range Returns(w) {
 						v := RetVal(ret, 0)
 						if RetErrKind(ret) == "nil" && CanReachBlock(c.Block(), ret.Block()) && ret.Block() != c.Block() {
-							isW := v == ssa.Value(wphi)
-							if lc, ok := v.(*ssa.Call); ok {
-								if b, ok := lc.Call.Value.(*ssa.Builtin); ok && b.Name() == "len" {
-									isW = true
-								}
-							}
+							isW := v == ssa.Value(lo) || isLenP(v)
 							// only the loop-exit return
 							if _, isConst := ConstInt(v); !isConst {
 								r.Ob("R-C10-3", ret.Pos(), isW, "success after segmentation returns the bytes framed (== len(p) at loop exit)", "FrameStream.Write", "segmented-return")
 							}
 						}
 						if ErrFailed(ret.Block(), c) {
-							r.Ob("R-C10-3", ret.Pos(), v == ssa.Value(wphi), "a failed frame write returns the bytes already framed", "FrameStream.Write", "error-return-count")
+							r.Ob("R-C10-3", ret.Pos(), v == ssa.Value(lo), "a failed frame write returns the bytes already framed", "FrameStream.Write", "error-return-count")
 						}
 					}
 				}
 			}
-			r.Ob("R-C10-3", CallPos(c), good, map[bool]string{true: "segmented write frames p[written:written+chunk], chunk <= MaxFrameSize, written += chunk", false: why}[good], "FrameStream.Write", "segmentation")
+			r.Ob("R-C10-3", CallPos(c), good, map[bool]string{true: "segmented write frames consecutive windows p[lo:hi] from 0, hi-lo <= MaxFrameSize, next lo = hi", false: why}[good], "FrameStream.Write", "segmentation")
 		}
 		if n != 1 {
 			r.Fail("R-C10-3", w.Pos(), fmt.Sprintf("expected one segmenting loop in FrameStream.Write, found %d", n), "FrameStream.Write", "anchor")
@@ -403,13 +490,12 @@ func runC10(r *Report) {
 				return Hit
 			}
 			if c, ok := in.(*ssa.Call); ok {
-				if bi, ok := c.Call.Value.(*ssa.Builtin); ok && bi.Name() == "copy" && originSummary(c.Call.Args[0]) == "param:p" {
-					if sl, ok := c.Call.Args[1].(*ssa.Slice); ok {
-						if _, f1, _, ok1 := FieldOf(sl.X); ok1 && f1 == "readBuf" {
-							if _, f2, _, ok2 := FieldOf(sl.Low); ok2 && f2 == "readOff" {
-								copies = true
-							}
-						}
+				if isRemainderCopy(c, "param:p") {
+					copies = true
+				}
+				if g := c.Common().StaticCallee(); g != nil && g.Pkg == rf.Pkg {
+					if pi := argIndexOf(c, "param:p"); pi >= 0 && isDrainHelper(g, pi) {
+						copies = true
 					}
 				}
 			}
@@ -436,9 +522,21 @@ func runC10(r *Report) {
 		if !ok {
 			return
 		}
-		b, ok := c.Call.Value.(*ssa.Builtin)
-		if !ok || b.Name() != "copy" || originSummary(c.Call.Args[0]) != "param:p" {
-			return
+		viaDrain := false
+		if b, ok := c.Call.Value.(*ssa.Builtin); ok {
+			if b.Name() != "copy" || originSummary(c.Call.Args[0]) != "param:p" {
+				return
+			}
+		} else {
+			g := c.Common().StaticCallee()
+			if g == nil || g.Pkg != rf.Pkg {
+				return
+			}
+			pi := argIndexOf(c, "param:p")
+			if pi < 0 || !isDrainHelper(g, pi) {
+				return
+			}
+			viaDrain = true
 		}
 		if !CanReachBlock(frame.Block(), c.Block()) || !frame.Block().Dominates(c.Block()) {
 			return // the buffered-remainder copy before the frame read
@@ -481,7 +579,18 @@ func runC10(r *Report) {
 		}
 		good := false
 		why := "remainder bookkeeping not recognised"
-		if bufVal != nil && offVal != nil {
+		if viaDrain {
+			// (readBuf, readOff) = (payload, 0) is installed in this block before the drain helper
+			// copies readBuf[readOff:] out and advances readOff by the copied count
+			k, isC := ConstInt(offVal)
+			good = bufVal == payload && offVal != nil && isC && k == 0
+			why = "the drain helper must be entered with readBuf = payload and readOff = 0"
+			for _, x := range c.Block().Instrs {
+				if x == ssa.Instruction(c) {
+					break
+				}
+			}
+		} else if bufVal != nil && offVal != nil {
 			whole := bufVal == payload
 			if sl, ok := bufVal.(*ssa.Slice); ok && sl.X == payload {
 				if blockLocalValue(sl.Low) == ssa.Value(c) && sl.High == nil {
@@ -505,30 +614,230 @@ func runC10(r *Report) {
 	if nCopy != 1 {
 		r.Fail("R-C10-4", rf.Pos(), fmt.Sprintf("expected one delivery site of fresh payloads, found %d", nCopy), "FrameStream.Read", "anchor-copy")
 	}
-	// EOF / Close frames latch readEOF
-	for _, ret := range Returns(rf) {
-		isEOFType := false
-		for _, ft := range Facts(ret.Block()) {
-			if bo, isB := ft.Cond.(*ssa.BinOp); isB && (bo.X == ftype) && bo.Op == token.EQL && ft.Pol {
-				if k, isC := ConstInt(bo.Y); isC && (k == 9 || k == 3) {
-					isEOFType = true
-				}
-			}
+	// EOF / Close frames latch readEOF: every return of io.EOF that follows the frame read (the
+	// frame said "end of stream") has stored readEOF = true on every path from the frame read
+	isEOFVal := func(v ssa.Value) bool {
+		u, ok := stripValue(v).(*ssa.UnOp)
+		if !ok || u.Op != token.MUL {
+			return false
 		}
-		if !isEOFType {
+		g, ok := u.X.(*ssa.Global)
+		return ok && g.Name() == "EOF" && g.Pkg != nil && g.Pkg.Pkg.Path() == "io"
+	}
+	nEOF := 0
+	for _, ret := range Returns(rf) {
+		if len(ret.Results) < 2 || !isEOFVal(RetVal(ret, 1)) || !frame.Block().Dominates(ret.Block()) {
 			continue
 		}
-		latched := false
-		for _, x := range ret.Block().Instrs {
-			if st, ok := x.(*ssa.Store); ok {
-				if _, f, _, isF := FieldOf(st.Addr); isF && f == "readEOF" {
-					if b, isC := ConstBool(st.Val); isC && b {
-						latched = true
+		// only returns decided by the frame type (not by a read error of the frame itself)
+		if ErrFailed(ret.Block(), frame) {
+			continue
+		}
+		nEOF++
+		latched := !reachesFromWithout(frame.(ssa.Instruction), ret, func(x ssa.Instruction) bool {
+			st, ok := x.(*ssa.Store)
+			if !ok {
+				return false
+			}
+			if _, f, _, isF := FieldOf(st.Addr); isF && f == "readEOF" {
+				if b, isC := ConstBool(st.Val); isC && b {
+					return true
+				}
+			}
+			return false
+		})
+		r.Ob("R-C10-4", ret.Pos(), latched, "an EOF/Close frame latches end-of-stream (later reads return EOF instead of reading frames of the next tunnel)", "FrameStream.Read", "eof-latched")
+	}
+	if nEOF == 0 {
+		r.Fail("R-C10-4", rf.Pos(), "no end-of-stream return after the frame read found", "FrameStream.Read", "eof-latched")
+	}
+	r.Floor("R-C10-4", 4, "delivery obligations")
+}
+
+// windowBounded: hi - lo <= k for the window p[lo:hi] framed in a loop. Accepted shapes:
+// hi = lo + c with c a constant <= k, or c a value that is on every edge a constant <= k or a
+// difference X - lo (the remaining bytes); hi a phi / value whose every edge is lo + const<=k, or
+// a value e reached only under the fact lo + const<=k > e (the clamp `if end > total {end = total}`).
+func windowBounded(lo *ssa.Phi, hi ssa.Value, k int64) bool {
+	chunkOK := func(chunk ssa.Value) bool {
+		if c, isC := ConstInt(chunk); isC {
+			return c <= k
+		}
+		if cp, ok := chunk.(*ssa.Phi); ok {
+			for _, e := range cp.Edges {
+				if c, isC := ConstInt(e); isC {
+					if c > k {
+						return false
 					}
+					continue
+				}
+				if sub, ok := e.(*ssa.BinOp); !ok || sub.Op != token.SUB || sub.Y != ssa.Value(lo) {
+					return false
+				}
+			}
+			return true
+		}
+		return false
+	}
+	loPlus := func(v ssa.Value) (ssa.Value, bool) {
+		if b, ok := v.(*ssa.BinOp); ok && b.Op == token.ADD {
+			if b.X == ssa.Value(lo) {
+				return b.Y, true
+			}
+			if b.Y == ssa.Value(lo) {
+				return b.X, true
+			}
+		}
+		return nil, false
+	}
+	if c, ok := loPlus(hi); ok {
+		return chunkOK(c)
+	}
+	hp, ok := hi.(*ssa.Phi)
+	if !ok {
+		return false
+	}
+	for i, e := range hp.Edges {
+		if c, ok := loPlus(e); ok {
+			if !chunkOK(c) {
+				return false
+			}
+			continue
+		}
+		// clamp edge: reached only when lo + c > e
+		pred := hp.Block().Preds[i]
+		clamped := false
+		for _, ft := range Facts(pred) {
+			bo, isB := ft.Cond.(*ssa.BinOp)
+			if !isB {
+				continue
+			}
+			var big, small ssa.Value
+			switch {
+			case bo.Op == token.GTR && ft.Pol, bo.Op == token.LEQ && !ft.Pol:
+				big, small = bo.X, bo.Y
+			case bo.Op == token.LSS && ft.Pol, bo.Op == token.GEQ && !ft.Pol:
+				big, small = bo.Y, bo.X
+			default:
+				continue
+			}
+			if c, ok := loPlus(big); ok && chunkOK(c) && (small == e || sameExpr(small, e)) {
+				clamped = true
+			}
+		}
+		if !clamped {
+			return false
+		}
+	}
+	return true
+}
+
+// argIndexOf: index (in Params order of the callee, receiver included) of the argument of c
+// whose origin is `origin`; -1 when absent.
+func argIndexOf(c ssa.CallInstruction, origin string) int {
+	for i, a := range c.Common().Args {
+		if originSummary(a) == origin {
+			return i
+		}
+	}
+	return -1
+}
+
+// isRemainderCopy: copy(<dst with origin dstOrigin or param index>, x.readBuf[x.readOff:]).
+func isRemainderCopy(c *ssa.Call, dstOrigin string) bool {
+	bi, ok := c.Call.Value.(*ssa.Builtin)
+	if !ok || bi.Name() != "copy" || originSummary(c.Call.Args[0]) != dstOrigin {
+		return false
+	}
+	sl, ok := c.Call.Args[1].(*ssa.Slice)
+	if !ok || sl.High != nil {
+		return false
+	}
+	if _, f1, _, ok1 := FieldOf(sl.X); !ok1 || f1 != "readBuf" {
+		return false
+	}
+	_, f2, _, ok2 := FieldOf(sl.Low)
+	return ok2 && f2 == "readOff"
+}
+
+// isDrainHelper: g copies readBuf[readOff:] into its parameter pi, advances readOff by exactly
+// the copied count, and returns that count (the serve-the-remainder step factored out).
+func isDrainHelper(g *ssa.Function, pi int) bool {
+	if pi >= len(g.Params) || len(g.Blocks) == 0 {
+		return false
+	}
+	dst := "param:" + g.Params[pi].Name()
+	var cp *ssa.Call
+	n := 0
+	Instrs(g, func(in ssa.Instruction) {
+		if c, ok := in.(*ssa.Call); ok && isRemainderCopy(c, dst) {
+			cp = c
+			n++
+		}
+	})
+	if n != 1 {
+		return false
+	}
+	// readOff += copied: a store to readOff of load(readOff) + cp that follows the copy
+	adv := false
+	Instrs(g, func(in ssa.Instruction) {
+		st, ok := in.(*ssa.Store)
+		if !ok {
+			return
+		}
+		if _, f, _, isF := FieldOf(st.Addr); !isF || f != "readOff" {
+			return
+		}
+		if b, ok := stripValue(st.Val).(*ssa.BinOp); ok && b.Op == token.ADD {
+			x, y := stripValue(b.X), stripValue(b.Y)
+			_, fx, _, okx := FieldOf(x)
+			_, fy, _, oky := FieldOf(y)
+			if (okx && fx == "readOff" && y == ssa.Value(cp)) || (oky && fy == "readOff" && x == ssa.Value(cp)) {
+				adv = true
+			}
+		}
+	})
+	if !adv {
+		return false
+	}
+	// every other store to readOff / readBuf is the reset (0 / nil) under readOff >= len(readBuf)
+	okStores := true
+	Instrs(g, func(in ssa.Instruction) {
+		st, ok := in.(*ssa.Store)
+		if !ok {
+			return
+		}
+		_, f, _, isF := FieldOf(st.Addr)
+		if !isF || (f != "readOff" && f != "readBuf") {
+			return
+		}
+		if b, ok := stripValue(st.Val).(*ssa.BinOp); ok && b.Op == token.ADD {
+			return
+		}
+		z, isC := ConstInt(st.Val)
+		if !(isNil(st.Val) || (isC && z == 0)) {
+			okStores = false
+			return
+		}
+		reset := false
+		for _, ft := range Facts(st.Block()) {
+			if bo, isB := ft.Cond.(*ssa.BinOp); isB && ((bo.Op == token.GEQ && ft.Pol) || (bo.Op == token.LSS && !ft.Pol)) {
+				if _, fx, _, okx := FieldOf(bo.X); okx && fx == "readOff" {
+					reset = true
 				}
 			}
 		}
-		r.Ob("R-C10-4", ret.Pos(), latched, "an EOF/Close frame latches end-of-stream (later reads return EOF instead of reading frames of the next tunnel)", "FrameStream.Read", "eof-latched")
+		if !reset {
+			okStores = false
+		}
+	})
+	if !okStores {
+		return false
 	}
-	r.Floor("R-C10-4", 5, "delivery obligations")
+	for _, ret := range Returns(g) {
+		if len(ret.Results) == 0 || stripValue(RetVal(ret, 0)) != ssa.Value(cp) {
+			return false
+		}
+	}
+	return true
 }
